@@ -621,6 +621,9 @@ def init(table, reload=False):
         table.Xe.neutron.coherent + table.Xe.neutron.incoherent)
     table.Eu[151].neutron.b_c = (
         sqrt(table.Eu[151].neutron.coherent/_4PI_100))
+    # Keep the complex scattering length consistent with the filled-in b_c
+    table.Eu[151].neutron.b_c_complex = (
+        table.Eu[151].neutron.b_c + 1j*table.Eu[151].neutron.b_c_complex.imag)
 
     for line in nsftableI.split('\n'):
         columns = line.split(',')
